@@ -70,7 +70,7 @@ func evidenceArgs(r *Run, rule string) {
 	if c := r.oneCall(rule, "BeginBlocker", f, posK+"handleValidatorSignature"); c != nil {
 		t := P.callTerm(c)
 		a2, a3, a4 := argTerm(t, 2).String(), argTerm(t, 3).String(), argTerm(t, 4).String()
-		ok := strings.Contains(a2, "req.LastCommitInfo") && strings.HasSuffix(a2, "].Validator.Address") &&
+		ok := strings.Contains(a2, "RequestBeginBlock.LastCommitInfo") && strings.HasSuffix(a2, "].Validator.Address") &&
 			strings.HasSuffix(a3, "].Validator.Power") && strings.HasSuffix(a4, "].SignedLastBlock")
 		r.Check(ok, rule, "BeginBlocker/handleValidatorSignature-args", P.InstrPos(c), "vote.{Validator.Address, Validator.Power, SignedLastBlock}", "handleValidatorSignature receives "+oneLine(t.String()))
 	}
